@@ -68,7 +68,7 @@ def errName : Err → String
   | .tar => "tar" | .metaRead => "meta-read" | .metaJson => "meta-json" | .stateIO => "state-io"
   | .sumsRead => "sums-read" | .unexpected => "unexpected" | .sumsScan => "sums-scan"
   | .sumsTooLong => "sums-toolong" | .listMissing => "list-missing" | .hashFailed => "hash-failed"
-  | .fileMissing => "file-missing" | .gzHeader => "gz-header" | .gzTail => "gz-tail" | .gzExtra => "gz-extra"
+  | .fileMissing => "file-missing" | .missingMeta => "missing-meta" | .missingState => "missing-state" | .gzHeader => "gz-header" | .gzTail => "gz-tail" | .gzExtra => "gz-extra"
 
 def verdict : Except Err (Meta × Bytes) → String
   | .error e => "err " ++ errName e
